@@ -179,6 +179,14 @@ func (fx *FuncVC) loopHead(fr *frame, li *loopInfo) {
 	hs := fx.havoc[li.header]
 	pre := fx.st.clone()
 	if hs != nil {
+		// the allocation frontier first: the well-formedness of the havocked variables below ("a
+		// slice or pointer refers to something already allocated") must be relative to the frontier
+		// at the loop head, not to the one before the loop
+		if hs.alloc {
+			na := fx.fresh("alloc", SInt)
+			fx.assume(Le(fx.st.alloc, na, true))
+			fx.st.alloc = na
+		}
 		// cells
 		var cells []*Cell
 		for c := range hs.cells {
@@ -198,11 +206,6 @@ func (fx *FuncVC) loopHead(fr *frame, li *loopInfo) {
 			} else if s, ok := fx.declared[n+"!0"]; ok {
 				heaps[n] = s
 			}
-		}
-		if hs.alloc {
-			na := fx.fresh("alloc", SInt)
-			fx.assume(Le(fx.st.alloc, na, true))
-			fx.st.alloc = na
 		}
 		// Frame across the loop: locations outside the function frame that existed at function
 		// entry keep their entry contents.
